@@ -639,16 +639,18 @@ func handleAddition(left, right interface{}, operator token.Token) interface{} {
 			utils.RuntimeError(operator, "Left operand must be a number.")
 			return nil
 		}
-		rightNum, err := toNumber(right)
-		if err == nil {
-			return leftNum + rightNum
-		}
+		// number + string concatenates, whatever the string looks like; only a numeric
+		// right operand is added
 		rightStr, ok := right.(string)
 		if ok {
 			return fmt.Sprintf("%v", leftNum) + rightStr
 		}
 		if rightStr, ok := right.([]rune); ok {
 			return fmt.Sprintf("%v", leftNum) + string(rightStr)
+		}
+		rightNum, err := toNumber(right)
+		if err == nil {
+			return leftNum + rightNum
 		}
 	case string:
 		rightStr, err := stringifyOperand(right)
